@@ -20,8 +20,8 @@ from common import g_str, g_list, g_opt
 
 NAME = "stubs"
 IMPORTS = "From Cinco Require Import Base Stubs."
-RUN = "run_stubs"
-CASE_TYPE = "(target * option str * list (str * fkind))"
+RUN = "run_stubs_hist"
+CASE_TYPE = "(target * option str * list (str * fkind) * list (list (str * fkind)))"
 
 
 # ---------------------------------------------------------------------------------------------
@@ -161,16 +161,30 @@ DEFAULT_MODES = ["const", "callable", "none"]
 
 
 def build_field(rec):
-    """["f", kind] or ["f", kind, "const"|"callable"|"none"] (a field constructed with default=...)"""
-    if len(rec) < 3:
-        return _field_builders()[rec[1]]()
+    """["f", kind] | ["f", kind, "const"|"callable"|"none"|None] (constructed with default=...) |
+    ["f", kind, mode, {"help": text, "name": text}] (constructed with help= / name=)"""
     import copy
-    ctor, const = _default_builders()[rec[1]]
-    if rec[2] == "const":
-        return ctor(default=copy.deepcopy(const))
-    if rec[2] == "callable":
-        return ctor(default=lambda v=const: copy.deepcopy(v))
-    return ctor(default=None)
+    from cincoconfig.core import Field
+    mode = rec[2] if len(rec) > 2 else None
+    opts = dict(rec[3]) if len(rec) > 3 and rec[3] else {}
+    if rec[1] in DEFAULT_KINDS:
+        ctor, const = _default_builders()[rec[1]]
+        kw = dict(opts)
+        if mode == "const":
+            kw["default"] = copy.deepcopy(const)
+        elif mode == "callable":
+            kw["default"] = lambda v=const: copy.deepcopy(v)
+        elif mode == "none":
+            kw["default"] = None
+        return ctor(**kw)
+    f = _field_builders()[rec[1]]()
+    if isinstance(f, Field):
+        # what Field.__init__ does with help= / name= (these builders take no keyword arguments)
+        if opts.get("help"):
+            f.help = opts["help"].strip() or None
+        if "name" in opts:
+            f._name = opts["name"]
+    return f
 
 
 FIELD_KINDS_F52 = ["list_local_ct", "list_nested_local_ct", "dict_str_local", "st_optional_local"]
@@ -203,10 +217,17 @@ def _method_ns():
 def build(fields, dynamic=False):
     """recipe list -> (Schema, {key: function}); ["dschema", fields] is a nested Schema(dynamic=True)"""
     import cincoconfig as cc
-    fb = _field_builders()
     s = cc.Schema(dynamic=True) if dynamic else cc.Schema()
     fns = {}
     for key, rec in fields:
+        add_entry(s, fns, key, rec)
+    return s, fns
+
+
+def add_entry(s, fns, key, rec):
+    """add (or replace, when the key exists) one entry of a schema"""
+    import cincoconfig as cc
+    if True:
         if rec[0] == "f":
             s._add_field(key, build_field(rec))
         elif rec[0] in ("schema", "dschema"):
@@ -225,7 +246,8 @@ def build(fields, dynamic=False):
             fns[key] = fn
         else:
             raise ValueError(rec)
-    return s, fns
+    if rec[0] != "method":
+        fns.pop(key, None)
 
 
 # ---------------------------------------------------------------------------------------------
@@ -318,8 +340,12 @@ def g_fkind(d):
 def describe(c):
     """model input of a case: (target literal, class_name, described fields); cached under _desc"""
     if "_desc" not in c:
-        schema, _ = build(c["fields"], c.get("dynamic", False))
+        schema, fns = build(c["fields"], c.get("dynamic", False))
         c["_desc"] = d_fields(schema)
+        c["_hist_desc"] = []
+        for op in c.get("history") or []:
+            add_entry(schema, fns, op[1], op[2])
+            c["_hist_desc"].append(d_fields(schema))
     return c["_desc"]
 
 
@@ -327,8 +353,10 @@ def gcase(c):
     desc = describe(c)
     tgt = {"schema": "TgtSchema", "config": "TgtConfig", "other": "TgtOther",
            "type": "(TgtType %s)" % g_str(c.get("type_name") or "T")}[c["target"]]
-    return "(%s, %s, %s)" % (tgt, g_opt(c["class_name"], g_str),
-                             g_list(desc, lambda kf: "(%s,%s)" % (g_str(kf[0]), g_fkind(kf[1]))))
+    def g_fields(d):
+        return g_list(d, lambda kf: "(%s,%s)" % (g_str(kf[0]), g_fkind(kf[1])))
+    return "(%s, %s, %s, %s)" % (tgt, g_opt(c["class_name"], g_str), g_fields(desc),
+                                 g_list(c.get("_hist_desc") or [], g_fields))
 
 
 # ---------------------------------------------------------------------------------------------
@@ -599,11 +627,34 @@ def impl(c):
         c["_text"] = None
         return out
     c["_text"] = text
+    c["_precond"] = preconditions(c, schema)
+    # ---- history: change the schema, generate again: the stub must be the stub of the CURRENT schema ----
+    hist_obs, hist = [], []
+    c["_hist_desc"] = []
+    try:
+        for op in c.get("history") or []:
+            cfg_old = schema()
+            add_entry(schema, fns, op[1], op[2])
+            c["_hist_desc"].append(d_fields(schema))
+            ea, ei, em = expectations(schema)
+            same = gen(tgt, c["class_name"])
+            # another Schema OBJECT with the very same field table (a rebuilt recipe is not the same thing:
+            # e.g. a replaced ApplicationModeField leaves its helper fields behind)
+            fresh_schema = cc.Schema(dynamic=bool(c.get("dynamic")))
+            for k_, f_ in schema._fields.items():
+                fresh_schema._fields[k_] = f_
+            hist.append((op[0] + " " + op[1], same, gen(cfg_old, c["_exp_class"]), gen(schema(), c["_exp_class"]),
+                         gen(fresh_schema, c["_exp_class"]), ea, ei, em))
+            hist_obs.append(same)
+    except Exception as e:  # noqa
+        c["_setup_error"] = "history: %s: %s" % (type(e).__name__, e)
+    c["_hist"] = hist
+    c["_stdout"] = buf.getvalue()
     proj = py_projection(text) if isinstance(text, str) else None
     # last component: do the preconditions of the C20 theorems hold for this case?  Independent of the
     # model: names are ASCII identifiers, every annotation text parses as an expression on its own,
     # and every method has a plain leading positional parameter
-    return ("ok", text, proj, buf.getvalue().splitlines(), preconditions(c, schema))
+    return ("ok", text, proj, buf.getvalue().splitlines(), c.pop("_precond"), hist_obs)
 
 
 # ---------------------------------------------------------------------------------------------
@@ -680,6 +731,16 @@ def oracle(c, obs):
             # ... or holds a method in the region of the open finding F45 (both are raised at the root only)
             f45 = ["method %s: parameter names/kinds differ from the bound function" % k for k in noself]
             add([m for m in msgs if not (f52 and m == "the generated stub is not valid Python") and m not in f45])
+    for lab, same, t_old, t_new, t_fresh, ea, ei, em in c.get("_hist", []):
+        if isinstance(same, tuple) or isinstance(t_fresh, tuple):
+            add(["generate_stub raised after the schema was changed (%s)" % lab])
+            continue
+        if same != t_fresh:
+            add(["after a schema change (%s) generate_stub does not return the stub of the current schema" % lab])
+        if t_old != same or t_new != same:
+            add(["after a schema change (%s) the stubs of the target and of configurations built before / after "
+                 "the change differ" % lab])
+        add(check_text(same, c["_exp_class"], list(ea), list(ei), [(k, w) for k, w in em]))
     if not c.get("_fn_unchanged", True):
         bad.append("generate_stub changed the signature / annotations / defaults of a method function")
     first = c.get("_first")
@@ -723,7 +784,7 @@ def tags(c, obs):
     for key, rec in c["fields"]:
         if rec[0] == "f":
             t.add("kind=" + rec[1])
-            if len(rec) > 2:
+            if len(rec) > 2 and rec[2]:
                 t.add("default=" + rec[2])
         elif rec[0] == "method":
             nm += 1
@@ -749,6 +810,10 @@ def tags(c, obs):
         t.add("F45-region")
     if c.get("_f52"):
         t.add("F52-region")
+    for op in c.get("history") or []:
+        t.add("history:%s-%s" % (op[0], op[2][0]))
+    if any(len(rec) > 3 and rec[3] for _, rec in c["fields"] if rec[0] == "f"):
+        t.add("help/name")
     if c.get("dynamic"):
         t.add("dynamic-root")
     if c.get("runtime"):
@@ -914,20 +979,58 @@ def rfields(rng, depth=0, allow_methods=True):
                 fields.append([k, ["f", rng.choice(FIELD_KINDS_F52)]])
             else:
                 kind = rng.choice(FIELD_KINDS)
+                rec = ["f", kind]
                 if kind in DEFAULT_KINDS and rng.random() < 0.45:
-                    fields.append([k, ["f", kind, rng.choice(DEFAULT_MODES)]])
-                else:
-                    fields.append([k, ["f", kind]])
+                    rec.append(rng.choice(DEFAULT_MODES))
+                if rng.random() < 0.3:
+                    rec += [None] * (3 - len(rec)) + [ropts(rng)]
+                fields.append([k, rec])
     return fields
 
 
-def case(fields, target="schema", class_name="Foo", type_name="T", domain=True, dynamic=False, runtime=None):
+def case(fields, target="schema", class_name="Foo", type_name="T", domain=True, dynamic=False, runtime=None,
+         history=None):
     c = {"target": target, "class_name": class_name, "type_name": type_name, "fields": fields, "domain": domain}
+    if history:
+        c["history"] = history
     if dynamic:
         c["dynamic"] = True
     if runtime:
         c["runtime"] = runtime
     return c
+
+
+HELPS = ["one line", "first line\nsecond line of the first paragraph\n\nsecond paragraph", "short\n\nlong\ntext\n\nthird",
+         "# leading hash", "it's \"quoted\"", "back\\slash and a tab\there", "non-ASCII: caf\u00e9 \u2603 \U0001F600",
+         'triple \"\"\" quote', "trailing backslash\\", "carriage\rreturn", "form\x0cfeed", "a\nb", "  padded  ",
+         "line one \\\nline two", "x: int = 5", "\n\nleading blank lines\nmore"]
+NAMES = ["Friendly Name", "n", "name with # hash", "multi\nline name", "caf\u00e9"]
+SAFE_CHANGES = [["f", "int"], ["f", "str", "const"], ["f", "list_int"], ["f", "virtual"], ["f", "dict_str_int", "callable"],
+                ["ct", "CT"], ["schema", [["q", ["f", "int"]]]], ["dschema", []], ["f", "local_ct"], ["f", "bool", None, {"help": "h"}]]
+
+
+def ropts(rng):
+    o = {}
+    if rng.random() < 0.8:
+        o["help"] = rng.choice(HELPS)
+    if rng.random() < 0.4 or not o:
+        o["name"] = rng.choice(NAMES)
+    return o
+
+
+def rhistory(rng, fields):
+    ops = []
+    keys = [k for k, _ in fields]
+    for _ in range(rng.choice([1, 1, 2, 3])):
+        rec = ["method", rng.choice(POOL)] if rng.random() < 0.35 else list(rng.choice(SAFE_CHANGES))
+        if keys and rng.random() < 0.5:
+            k = rng.choice(keys)
+            ops.append(["replace", k, rec])
+        else:
+            k = "h%d" % len(ops)
+            ops.append(["add", k, rec])
+            keys.append(k)
+    return ops
 
 
 RT_KEYS = ["rt_a", "rt_b", "build_tag", "retries", "zz"]
@@ -1010,6 +1113,31 @@ def generate(rng, tier):
                          ("other", "Thing", False), ("other", None, False)):
         cases.append(case([list(x) for x in base], target=tgt, class_name=cn, type_name="MyType", domain=dom))
         cases.append(case([], target=tgt, class_name=cn, type_name="Empty", domain=dom))
+    # help= / name= texts on every field kind (the first paragraph of help is Field.short_help)
+    for i, kind in enumerate(FIELD_KINDS):
+        cases.append(case([["x", ["f", kind, None, {"help": HELPS[i % len(HELPS)], "name": NAMES[i % len(NAMES)]}]],
+                           ["y", ["f", "int"]]]))
+    for h in HELPS:
+        cases.append(case([["a", ["f", "str", "const", {"help": h}]], ["v", ["f", "virtual", None, {"help": h}]],
+                           ["m", ["method", POOL[8]]]], target="config"))
+    for nm in NAMES:
+        cases.append(case([["a", ["f", "int", None, {"name": nm}]]]))
+    # histories: generate, change the schema, generate again
+    hbase = [["a", ["f", "int"]], ["b", ["f", "str", "const"]], ["v", ["f", "virtual"]], ["m", ["method", POOL[8]]]]
+    changes = ([["add", "c", ["f", "float"]]], [["replace", "a", ["f", "str"]]], [["replace", "a", ["f", "virtual"]]],
+               [["replace", "v", ["f", "list_int"]]], [["add", "m2", ["method", POOL[28]]]],
+               [["replace", "m", ["method", POOL[33]]]], [["replace", "m", ["f", "int"]]], [["replace", "a", ["method", POOL[7]]]],
+               [["add", "sub", ["schema", [["q", ["f", "int"]]]]]], [["add", "dsub", ["dschema", []]]], [["add", "ct", ["ct", "CT"]]],
+               [["replace", "b", ["ct", "CT"]]], [["replace", "b", ["schema", []]]],
+               [["add", "c", ["f", "float"]], ["replace", "c", ["f", "bool"]], ["add", "m2", ["method", POOL[16]]]],
+               [["add", "h", ["f", "str", None, {"help": "two\nlines"}]]])
+    for ch in changes:
+        for tgt in ("schema", "config", "type"):
+            cases.append(case([list(x) for x in hbase], target=tgt, class_name="Hist", type_name="Hist",
+                              history=[list(o) for o in ch]))
+    cases.append(case([], history=[["add", "a", ["f", "int"]], ["add", "m", ["method", POOL[0]]]]))
+    cases.append(case([list(x) for x in hbase], target="type", class_name=None, type_name="Named",
+                      history=[["add", "z", ["f", "int"]]]))
     # dynamic schemas whose configurations got fields at run time (assignment, load_tree; root and nested)
     dyn = [["name", ["f", "str"]], ["port", ["f", "int"]], ["address", ["f", "virtual"]],
            ["db", ["dschema", [["host", ["f", "str"]]]]], ["plain", ["schema", [["q", ["f", "int"]]]]],
@@ -1037,8 +1165,9 @@ def generate(rng, tier):
         fields = rfields(rng)
         dynamic = rng.random() < 0.3
         runtime = rruntime(rng, fields, dynamic) if rng.random() < 0.8 else None
+        history = rhistory(rng, fields) if rng.random() < 0.25 else None
         cases.append(case(fields, target=tgt, class_name=cn, type_name=rng.choice(["T", "AppConfig", "Item"]),
-                          dynamic=dynamic, runtime=runtime))
+                          dynamic=dynamic, runtime=runtime, history=history))
     for c in cases:
         assert all(k.isidentifier() and not keyword.iskeyword(k) for k, _ in c["fields"])
     return cases
